@@ -6,6 +6,8 @@
   names enter through `_level_to_var` (`VarsOK`: every level has a name, names are distinct).
 -/
 import DDProofs.SatProofs
+import DDProofs.SmallSupport
+import DDProofs.SmallSatExample
 namespace DD
 
 /-- a stored node's function depends on the node's own variable -/
@@ -35,6 +37,28 @@ theorem C10_support_spec (t : Tbl) (hw : WFU t) (hv : VarsOK t) (u : Int) (hm : 
       support t u = .ok (ls.map t.nameOf) := by
   obtain ⟨ls, e, _, s, h⟩ := support_spec' hw hv u hm
   exact ⟨ls, e, s, h⟩
+
+/-- `support(u)` by NAME on a state with a good order: succeeds; a name is returned iff it is
+a declared variable on which the function depends; every returned name is declared -/
+theorem C10_support_names (t : Tbl) (hw : WFU t) (hO : OrderOK t) (u : Int) (hm : t.Mem u) :
+    ∃ names, support t u = .ok names ∧
+      (∀ s, s ∈ names ↔ ∃ j, t.vars[s]? = some j ∧ dependsOn t u j) ∧
+      (∀ s, s ∈ names → t.vars.contains s = true) := by
+  obtain ⟨names, h1, h2, -, h4⟩ := support_inSupp hw hO u hm
+  exact ⟨names, h1, h4, h2⟩
+
+/-- `is_essential(u, x)` agrees with `x ∈ support(u)`: both calls succeed and the Boolean
+answer is `True` exactly when the name is in the returned support (for an undeclared name:
+`False`, and the name is not in the support) -/
+theorem C10_isEssential_iff_support (t : Tbl) (hw : WFU t) (hO : OrderOK t) (u : Int) (hm : t.Mem u)
+    (var : String) :
+    ∃ b names, isEssential t u var = .ok b ∧ support t u = .ok names ∧ (b = true ↔ var ∈ names) :=
+  isEssential_iff_support hw hO u hm var
+
+/-- the levels of the nodes reachable from `u` (`InSupp`, the support of C03 / C04 / C11 / C13)
+are the levels the function depends on -/
+theorem C10_inSupp_iff_dependsOn (t : Tbl) (hw : WFU t) (u : Int) (hm : t.Mem u) (i : Nat) :
+    InSupp t u i ↔ dependsOn t u i := inSupp_iff_dependsOn hw u hm i
 
 /-- `count(u, n)` for `n ≥ |support|` is the number of assignments over the support satisfying
 `u` (`cnt`, which is `((allAsg ls a0).filter (den t u)).length` by `cnt_eq_filter`; the base
@@ -116,6 +140,12 @@ example := C10_supportLevels_spec exTbl exTbl_wfu 3 exTbl_mem3
 example : supportLevels exTbl 3 = .ok [0, 1] := by rfl
 example := C10_support_spec exTbl exTbl_wfu exTbl_varsOK 3 exTbl_mem3
 example : support exTbl 3 = .ok ["x", "y"] := by rfl
+example := C10_support_names exTbl exTbl_wfu exTbl_orderOK 3 exTbl_mem3
+example := C10_isEssential_iff_support exTbl exTbl_wfu exTbl_orderOK 3 exTbl_mem3 "y"
+example := C10_isEssential_iff_support exTbl exTbl_wfu exTbl_orderOK (-3) exTbl_mem_neg3 "undeclared"
+example : isEssential exTbl (-3) "undeclared" = .ok false := by rfl
+example := (C10_inSupp_iff_dependsOn exTbl exTbl_wfu 3 exTbl_mem3 1).mp
+  (InSupp.hi (n := ⟨0, -1, 2⟩) (by decide) (by decide) (InSupp.here (n := ⟨1, -1, 1⟩) (by decide) (by decide)))
 example := C10_count_spec exTbl exTbl_wfu (-3) exTbl_mem_neg3
 example := C10_count_refuses exTbl exTbl_wfu (-3) exTbl_mem_neg3
 example := C10_pickIter_spec exTbl exTbl_wfu exTbl_varsOK (-3) exTbl_mem_neg3 (some ["y", "z"])
